@@ -4,28 +4,32 @@
 (* result.                                                                  *)
 (*                                                                         *)
 (* A Db PATTERN is a sequence of sample statuses                            *)
-(*   [ sel : "none" | "on" | "off" | "na" | "neg",   selection cell          *)
+(*   [ id  : 1..4,               identity of the sample (= which physical    *)
+(*                               point / values it carries, see geometry)    *)
+(*     sel : "none" | "on" | "off" | "na" | "neg",   selection cell          *)
 (*     c   : BOOLEAN,            coordinates defined                         *)
-(*     z   : Seq(BOOLEAN),       value of each variable defined (NVar)       *)
+(*     z   : [Vars -> BOOLEAN],  value of each variable defined              *)
 (*     f   : BOOLEAN,            external drift defined (TRUE if no column)  *)
 (*     v   : BOOLEAN ]           measurement error variance defined (idem)   *)
 (* ("none" = the Db has no selection column at all).  The numeric content    *)
-(* of a sample is abstracted by its identity (its rank in the pattern):      *)
-(* an operation is modelled by the list of DATA <<sample, variable>> it      *)
-(* consumes (and for per-target operations one list per target); the result  *)
-(* is an uninterpreted function of that list, so two runs give the same      *)
-(* result when they consume the same data in the same order.                 *)
+(* of a sample is abstracted by its identity: an operation is modelled by    *)
+(* the list of DATA <<sample identity, variable>> it consumes (for the       *)
+(* per-target operations one list per target); its result is an              *)
+(* uninterpreted function of that list, so two runs give the same result     *)
+(* when they consume the same data in the same order.                        *)
 (*                                                                         *)
-(*  - Decl(op, S): the data the operation MAY use = the declarative side of  *)
-(*    C05 ("usable" data, physically what Reduce(S) contains).               *)
+(*  - Decl(op, S): the data the operation MAY use: the declarative side of   *)
+(*    C05 (the "usable" data = physically what Reduce(S) contains).          *)
 (*  - Code(op, S): transcription of the filters that the gstlearn sources    *)
 (*    apply, each at the place where the code applies it (selection test of  *)
 (*    the neighbourhood search, FFFF tests of _flagDefine, getRanksActive,   *)
 (*    pair loops, ball-tree searches, ...).                                  *)
-(*  - the property on the model: Code(op, S) = Decl(op, S) = the image under *)
-(*    Keep of Code(op, Reduce(S)), for every pattern S.  Where TLC refutes it *)
-(*    the deviation must be listed in ModelDeviation (a design-level defect   *)
-(*    found by TLC; each one is confirmed or not by the conformance runs).    *)
+(*  - C05 on the model:  Code(op, S) = Code(op, Reduce(S)) = Decl(op, S)      *)
+(*    (everything expressed in identities, which is what Expand does: row k  *)
+(*    of a result on Reduce(S) is row Keep(S)[k] of the result on S).         *)
+(*    Where TLC refutes it, the deviation must be listed in ModelDeviation    *)
+(*    (a design-level defect found by TLC; the conformance runs confirm it    *)
+(*    or not on the real library).                                            *)
 (*                                                                         *)
 (* Sample and target coordinates are fixed lattice points (constants below)  *)
 (* so that nearest-neighbour decisions and variogram lags are exact integer  *)
@@ -33,69 +37,70 @@
 (***************************************************************************)
 EXTENDS Integers, Sequences, FiniteSets, TLC
 
-CONSTANTS MaxN,      \* maximal number of samples of a pattern
+CONSTANTS MaxN,      \* maximal number of samples of a pattern (<= 4)
           NVar,      \* number of variables (1 or 2)
-          SelDom,    \* domain of the selection cell: {"none"} or {"on","off"} (or with "na","neg")
+          SelDom,    \* domain of the selection cell: {"none"}, {"on","off"} or {"on","off","na","neg"}
           CDom,      \* domain of "coordinates defined": {TRUE} or BOOLEAN
-          FDom,      \* {TRUE} (no external drift column) or BOOLEAN
-          VDom,      \* {TRUE} (no measurement error column) or BOOLEAN
+          FDom,      \* {TRUE} or BOOLEAN
+          VDom,      \* {TRUE} or BOOLEAN
           HasF, HasV \* the Db carries an external drift / a measurement error variance column
 
 Vars == 1..NVar
+Ids == 1..4
 
-\* fixed geometry (lattice): samples 1..4, targets 1..5
+\* fixed geometry (lattice): sample identities 1..4, targets 1..5
 SX == <<1, 4, 2, 6>>
 SY == <<1, 2, 5, 4>>
 TX == <<3, 0, 7, 7, 0>>
 TY == <<3, 0, 0, 6, 6>>
 NTarget == 5
+Targets == 1..NTarget
 NMaxi == 2           \* moving neighbourhood: at most 2 samples, radius larger than the field
 LagW == 2            \* variogram: omnidirectional, lag width 2, NLag lags, tolerance 1/2 lag
 NLag == 4
 
 Sq(x) == x * x
-D2SS(i, j) == Sq(SX[i] - SX[j]) + Sq(SY[i] - SY[j])
-D2ST(i, t) == Sq(SX[i] - TX[t]) + Sq(SY[i] - TY[t])
+D2SS(a, b) == Sq(SX[a] - SX[b]) + Sq(SY[a] - SY[b])
+D2ST(a, t) == Sq(SX[a] - TX[t]) + Sq(SY[a] - TY[t])
 
 \* the geometry is free of ties and of lag-boundary distances (C05 says nothing about those)
-ASSUME \A t \in 1..NTarget : \A i, j \in 1..4 : i # j => D2ST(i, t) # D2ST(j, t)
-ASSUME \A i, j \in 1..4 : i # j => \A k \in 0..NLag : 4 * D2SS(i, j) # Sq((2 * k + 1) * LagW)
-ASSUME \A i \in 1..4 : \A t \in 1..NTarget : D2ST(i, t) > 0
+ASSUME \A t \in Targets : \A a, b \in Ids : a # b => D2ST(a, t) # D2ST(b, t)
+ASSUME \A a, b \in Ids : a # b => \A k \in 0..NLag : 4 * D2SS(a, b) # Sq((2 * k + 1) * LagW)
+ASSUME \A a \in Ids : \A t \in Targets : D2ST(a, t) > 0
+ASSUME \A a, b \in Ids : a # b => 4 * D2SS(a, b) < Sq((2 * NLag + 1) * LagW)
 
-Status == [sel : SelDom, c : CDom, z : [Vars -> BOOLEAN], f : FDom, v : VDom]
+Status == [id : Ids, sel : SelDom, c : CDom, z : [Vars -> BOOLEAN], f : FDom, v : VDom]
 
 -----------------------------------------------------------------------------
 (* Helpers on sequences                                                     *)
 
-RECURSIVE SelectIdx(_, _, _)
-\* increasing sequence of the indices k..n satisfying P
-SelectIdx(k, n, P(_)) == IF k > n THEN <<>>
-                         ELSE IF P(k) THEN <<k>> \o SelectIdx(k + 1, n, P) ELSE SelectIdx(k + 1, n, P)
-Idx(S, P(_)) == SelectIdx(1, Len(S), P)
+\* increasing sequence of the indices 1..n satisfying P
+IdxN(n, P(_)) == LET F[i \in 0..n] == IF i = 0 THEN <<>> ELSE IF P(i) THEN Append(F[i - 1], i) ELSE F[i - 1]
+                 IN F[n]
+Idx(S, P(_)) == IdxN(Len(S), P)
 Range(q) == {q[k] : k \in DOMAIN q}
 RECURSIVE Flatten(_)
 Flatten(qq) == IF qq = <<>> THEN <<>> ELSE Head(qq) \o Flatten(Tail(qq))
-\* the elements of the set A of samples sorted by increasing distance to target t
-RECURSIVE SortByDist(_, _)
-SortByDist(A, t) == IF A = {} THEN <<>>
-                    ELSE LET m == CHOOSE i \in A : \A j \in A : D2ST(i, t) <= D2ST(j, t)
-                         IN <<m>> \o SortByDist(A \ {m}, t)
+\* the positions of the set A (of positions of S) sorted by increasing distance to target t
+RECURSIVE SortByDist(_, _, _)
+SortByDist(S, A, t) == IF A = {} THEN <<>>
+                       ELSE LET m == CHOOSE i \in A : \A j \in A : D2ST(S[i].id, t) <= D2ST(S[j].id, t)
+                            IN <<m>> \o SortByDist(S, A \ {m}, t)
 FirstK(q, k) == SubSeq(q, 1, IF Len(q) < k THEN Len(q) ELSE k)
-SortAsc(A) == SelectIdx(1, 4, LAMBDA i : i \in A)
-Lag(i, j) == CHOOSE k \in 0..(NLag + 2) : 4 * D2SS(i, j) < Sq((2 * k + 1) * LagW)
-                                         /\ (k = 0 \/ 4 * D2SS(i, j) > Sq((2 * k - 1) * LagW))
+SortAsc(A) == IdxN(4, LAMBDA i : i \in A)
+Lag(a, b) == CHOOSE k \in 0..NLag : 4 * D2SS(a, b) < Sq((2 * k + 1) * LagW)
+                                    /\ (k = 0 \/ 4 * D2SS(a, b) > Sq((2 * k - 1) * LagW))
 
 -----------------------------------------------------------------------------
 (* The three readings of the selection cell that coexist in Db.cpp           *)
 
-HasSel(S) == Len(S) > 0 /\ S[1].sel # "none"
-\* Db::getSelection / isActive: undefined -> masked, any non-zero value -> active
+\* Db::getSelection / isActive: undefined -> masked, any other non-zero value -> active
 IsActive(s)     == s.sel \in {"none", "on", "neg"}
 \* Db::getRanksActive: "value <= 0 -> skipped" (the undefined value 1.234e30 is positive)
 RanksActive(s)  == s.sel \in {"none", "on", "na"}
 \* Db::getSampleNumber(true): counts the non-zero cells
 CountedActive(s) == s.sel \in {"none", "on", "na", "neg"}
-\* what C05 calls switched off: the documented reading (getSelection) for the cells 0 / 1
+\* what C05 calls "not switched off": the documented reading for the cells 0 / 1
 SelOn(s) == s.sel \in {"none", "on"}
 OddSel(S) == \E i \in DOMAIN S : S[i].sel \in {"na", "neg"}
 
@@ -105,21 +110,22 @@ AnyZ(s) == \E w \in Vars : s.z[w]
 (* Declarative side: usable data and Reduce                                  *)
 
 \* needs: subset of {"c","f","v"} = the fields of a sample the operation reads besides the values
+\* ("anyrow": the operation handles rows, not values: a row without any defined value is kept)
 FieldsOk(s, needs) == /\ ("c" \in needs => s.c)
                       /\ ("f" \in needs /\ HasF => s.f)
                       /\ ("v" \in needs /\ HasV => s.v)
-UsableSample(s, needs) == SelOn(s) /\ FieldsOk(s, needs) /\ AnyZ(s)
+UsableSample(s, needs) == SelOn(s) /\ FieldsOk(s, needs) /\ ("anyrow" \in needs \/ AnyZ(s))
 UsableDatum(s, w, needs) == SelOn(s) /\ FieldsOk(s, needs) /\ s.z[w]
 
-\* Keep(S, needs): ranks (in S) of the samples of the physically reduced Db, in order
+\* Keep(S, needs): positions (in S) of the samples of the physically reduced Db, in order
 Keep(S, needs) == Idx(S, LAMBDA i : UsableSample(S[i], needs))
-\* Reduce: the kept samples, without selection column, heterotopic pattern preserved
+\* Reduce: the kept samples, without selection column; a value undefined in one variable only
+\* stays an undefined value of the kept sample (heterotopic pattern preserved)
 Reduce(S, needs) == LET kp == Keep(S, needs) IN [k \in 1..Len(kp) |-> [S[kp[k]] EXCEPT !.sel = "none"]]
 
-\* data <<sample, variable>> in the order variable-major (the order of the kriging system and of
+\* data <<position, variable>> in variable-major order (the order of the kriging system and of
 \* the covariance / drift matrices)
-DataVM(S, P(_, _)) == Flatten([w \in Vars |-> [k \in DOMAIN Idx(S, LAMBDA i : P(i, w)) |->
-                                                  <<Idx(S, LAMBDA i : P(i, w))[k], w>>]])
+DataVM(S, P(_, _)) == Flatten([w \in Vars |-> LET q == Idx(S, LAMBDA i : P(i, w)) IN [k \in DOMAIN q |-> <<q[k], w>>]])
 DeclData(S, needs) == DataVM(S, LAMBDA i, w : UsableDatum(S[i], w, needs))
 
 -----------------------------------------------------------------------------
@@ -127,29 +133,37 @@ DeclData(S, needs) == DataVM(S, LAMBDA i, w : UsableDatum(S[i], w, needs))
 
 \* ANeigh::_discardUndefined (Db::isAllUndefined is misnamed: the sample is kept when some Z is defined)
 NotAllUndef(s) == AnyZ(s)
-\* KrigingSystem::_flagDefine on a neighbourhood nb (sequence of ranks): coordinates, value, external drifts
+\* KrigingSystem::_flagDefine on a neighbourhood nb (sequence of positions): coordinates, value, external drifts
 FlagDefine(S, nb) == Flatten([w \in Vars |->
-                       LET q == SelectIdx(1, Len(nb), LAMBDA k : S[nb[k]].c /\ S[nb[k]].z[w] /\ (HasF => S[nb[k]].f))
+                       LET q == IdxN(Len(nb), LAMBDA k : S[nb[k]].c /\ S[nb[k]].z[w] /\ (HasF => S[nb[k]].f))
                        IN [k \in DOMAIN q |-> <<nb[q[k]], w>>]])
+
+\* cross-validation in unique neighbourhood (_estimateCalculXvalidUnique): the row of a sample in the inverse
+\* of the (compressed) kriging matrix is computed by _getFlagAddress = rank among the active isotopic samples,
+\* whereas the matrix was compressed with the flags of _flagDefine: any difference mis-addresses the rows
+XvAddressed(S) == Idx(S, LAMBDA i : IsActive(S[i]) /\ \A w \in Vars : S[i].z[w])
+XvCompressed(S, nb) == LET q == IdxN(Len(nb), LAMBDA k : S[nb[k]].c /\ S[nb[k]].z[1] /\ (HasF => S[nb[k]].f))
+                       IN [k \in DOMAIN q |-> nb[q[k]]]
+BadMark == <<<<0, 1>>>>
 
 \* NeighUnique::_unique
 NbUnique(S) == Idx(S, LAMBDA i : IsActive(S[i]) /\ NotAllUndef(S[i]))
 \* NeighMoving::_moving without ball tree: active, not all undefined, distance within the radius
 \* (an undefined coordinate gives a distance of 1e30), sorted, first NMaxi
 NbMovingCand(S) == {i \in DOMAIN S : IsActive(S[i]) /\ NotAllUndef(S[i]) /\ S[i].c}
-NbMoving(S, t) == SortAsc(Range(FirstK(SortByDist(NbMovingCand(S), t), NMaxi)))
+NbMoving(S, t) == SortAsc(Range(FirstK(SortByDist(S, NbMovingCand(S), t), NMaxi)))
 \* with the ball tree: the tree holds ALL samples (Ball::init(db, ..., useSel = false)), the NMaxi
-\* nearest ones are candidates, and the isActive test is skipped on that path; a sample with an
+\* nearest ones are the candidates, and the isActive test is skipped on that path; a sample with an
 \* undefined coordinate is at distance 1e30: it is returned only when fewer than NMaxi others exist,
 \* and then rejected by the radius
+\* (KNN::_query refuses a query for more neighbours than the tree holds points: no candidate at all)
 BallKnn(S, t) == LET def == {i \in DOMAIN S : S[i].c}
                      und == {i \in DOMAIN S : ~S[i].c}
-                 IN FirstK(SortByDist(def, t) \o SortAsc(und), NMaxi)
+                 IN IF Len(S) < NMaxi THEN <<>> ELSE FirstK(SortByDist(S, def, t) \o SortAsc(und), NMaxi)
 NbMovingBall(S, t) == SortAsc({i \in Range(BallKnn(S, t)) : NotAllUndef(S[i]) /\ S[i].c})
 
 \* declared neighbourhoods
-DeclNbAll(S, needs) == Keep(S, needs)
-DeclNbMoving(S, t, needs) == SortAsc(Range(FirstK(SortByDist(Range(Keep(S, needs)), t), NMaxi)))
+DeclNbMoving(S, t, needs) == SortAsc(Range(FirstK(SortByDist(S, Range(Keep(S, needs)), t), NMaxi)))
 
 \* Db::getRanksActive(nbgh, item, useSel, useVerr) as used by evalCovMatrix*, evalDriftMatrix
 RanksData(S, useVerr) == DataVM(S, LAMBDA i, w : RanksActive(S[i]) /\ S[i].z[w] /\ (useVerr /\ HasV => S[i].v))
@@ -163,58 +177,92 @@ DeclStat(S, iso) == DataVM(S, LAMBDA i, w : SelOn(S[i]) /\ S[i].z[w] /\ (iso => 
 \* coordinate has no lag (distance 1e30) -- transcribed as such.
 PairsOf(S, w, P(_)) == {p \in (DOMAIN S) \X (DOMAIN S) : p[1] < p[2] /\ P(p[1]) /\ P(p[2])
                                                           /\ S[p[1]].z[w] /\ S[p[2]].z[w]
-                                                          /\ S[p[1]].c /\ S[p[2]].c /\ Lag(p[1], p[2]) < NLag}
+                                                          /\ S[p[1]].c /\ S[p[2]].c}
 VarioPairs(S, w) == PairsOf(S, w, LAMBDA i : IsActive(S[i]))
 DeclPairs(S, w)  == PairsOf(S, w, LAMBDA i : SelOn(S[i]))
-SwOf(S, pairs) == [k \in 1..NLag |-> Cardinality({p \in pairs : Lag(p[1], p[2]) = k - 1})]
+SwOf(S, pairs) == [k \in 1..NLag |-> Cardinality({p \in pairs : Lag(S[p[1]].id, S[p[2]].id) = k - 1})]
 
 \* migrate point -> point (CalcMigrate::_expandPointToPoint): nearest ACTIVE sample, whatever its value;
 \* with flag_ball: nearest sample of a tree holding all samples (no selection)
-NearestOf(A, t) == IF A = {} THEN 0 ELSE SortByDist(A, t)[1]
-MigrateSrc(S, t)     == NearestOf({i \in DOMAIN S : IsActive(S[i]) /\ S[i].c}, t)
-MigrateBallSrc(S, t) == NearestOf({i \in DOMAIN S : S[i].c}, t)
+NearestOf(S, A, t) == IF A = {} THEN 0 ELSE SortByDist(S, A, t)[1]
+MigrateSrc(S, t)     == NearestOf(S, {i \in DOMAIN S : IsActive(S[i]) /\ S[i].c}, t)
+\* (a sample with an undefined coordinate is in the tree, at distance 1e30: it wins when it is alone)
+MigrateBallSrc(S, t) == IF {i \in DOMAIN S : S[i].c} # {} THEN NearestOf(S, {i \in DOMAIN S : S[i].c}, t)
+                        ELSE IF S = <<>> THEN 0 ELSE 1
 \* declared: nearest usable sample for the migrated variable (variable 1)
-DeclMigrateSrc(S, t) == NearestOf({i \in DOMAIN S : UsableDatum(S[i], 1, {"c"})}, t)
+DeclMigrateSrc(S, t) == NearestOf(S, {i \in DOMAIN S : UsableDatum(S[i], 1, {"c"})}, t)
 
 \* conditional turning bands: the band extents (_minmax) span every ACTIVE data sample, read
 \* through its coordinates whether they are defined or not
-SimBandSamples(S) == {i \in DOMAIN S : IsActive(S[i])}
-SimExtentUndefined(S) == \E i \in SimBandSamples(S) : ~S[i].c
+SimExtentUndefined(S) == \E i \in DOMAIN S : IsActive(S[i]) /\ ~S[i].c
+
+\* conditional turning bands on POINT targets, _updateData2ToTarget ("copy the datum onto a coinciding target"):
+\* the coordinates of target number t are read in the DATA Db at row t, so that target t always coincides with
+\* data row t and receives its value
+SimPointCopy(S, t) == [w \in Vars |-> IF t <= Len(S) /\ IsActive(S[t]) /\ S[t].z[w] THEN t ELSE 0]
 
 \* Db::createReduce: the rows returned by getRanksActive() without variable
 CreateReduceRows(S) == Idx(S, LAMBDA i : RanksActive(S[i]))
 DeclReduceRows(S)   == Idx(S, LAMBDA i : SelOn(S[i]))
 
 -----------------------------------------------------------------------------
-(* Catalogue: for every operation its declared and transcribed data          *)
+(* Catalogue: for every operation what it reads, the shape of its data, its   *)
+(* declared and its transcribed data                                          *)
 
-Targets == 1..NTarget
 KNeeds == IF HasF THEN {"c", "f"} ELSE {"c"}      \* what kriging reads of a sample
 
 OpNames == <<"krig_u", "krig_m", "krig_mb", "neigh_u", "neigh_m", "neigh_mb", "xvalid_u", "xvalid_m",
-             "vario", "stat", "stat_iso", "cov", "cov_sym", "drift", "simtub", "migrate", "migrate_ball",
-             "reduce">>
+             "vario", "stat", "stat_iso", "cov", "cov_sym", "drift", "simtub", "simtub_pt", "migrate",
+             "migrate_ball", "reduce">>
+Ops == Range(OpNames)
+
+\* fields read besides the values = which Reduce the operation is compared with
+NeedsOf(op) ==
+  CASE op \in {"krig_u", "krig_m", "krig_mb", "xvalid_u", "xvalid_m", "simtub", "simtub_pt"} -> KNeeds
+    [] op = "neigh_u" -> {}                  \* ANeigh promises: not masked, not all undefined (the rest is _flagDefine's)
+    [] op \in {"neigh_m", "neigh_mb"} -> {"c"}
+    [] op = "vario" -> {"c"}
+    [] op \in {"stat", "stat_iso"} -> {}
+    [] op = "cov" -> {"c"}
+    [] op = "cov_sym" -> {"c", "v"}
+    [] op = "drift" -> {"c", "f", "v"}
+    [] op \in {"migrate", "migrate_ball"} -> {"c"}
+    [] op = "reduce" -> {"anyrow"}
+
+\* shape: "data" = sequence of <<position, variable>>, "idx" = sequence of positions, "t..." = one per target,
+\* "tsrc" = one position (or 0) per target, "count" = numbers only
+KindOf(op) ==
+  CASE op \in {"krig_u", "xvalid_u", "simtub", "stat", "stat_iso", "cov", "cov_sym", "drift"} -> "data"
+    [] op \in {"krig_m", "krig_mb", "xvalid_m"} -> "tdata"
+    [] op \in {"neigh_u", "reduce"} -> "idx"
+    [] op \in {"neigh_m", "neigh_mb"} -> "tidx"
+    [] op \in {"migrate", "migrate_ball"} -> "tsrc"
+    [] op = "vario" -> "count"
+    [] op = "simtub_pt" -> "datasrc"
 
 DeclOf(op, S) ==
   CASE op \in {"krig_u", "xvalid_u", "simtub"} -> DeclData(S, KNeeds)
     [] op \in {"krig_m", "krig_mb", "xvalid_m"} ->
          [t \in Targets |-> LET nb == DeclNbMoving(S, t, KNeeds) IN
                               DataVM(S, LAMBDA i, w : i \in Range(nb) /\ UsableDatum(S[i], w, KNeeds))]
-    [] op = "neigh_u" -> DeclNbAll(S, KNeeds)
-    [] op \in {"neigh_m", "neigh_mb"} -> [t \in Targets |-> DeclNbMoving(S, t, KNeeds)]
+    [] op = "neigh_u" -> Keep(S, {})
+    [] op \in {"neigh_m", "neigh_mb"} -> [t \in Targets |-> DeclNbMoving(S, t, {"c"})]
     [] op = "vario" -> [w \in Vars |-> SwOf(S, DeclPairs(S, w))]
     [] op = "stat" -> DeclStat(S, FALSE)
     [] op = "stat_iso" -> DeclStat(S, TRUE)
     [] op = "cov" -> DeclData(S, {"c"})
     [] op = "cov_sym" -> DeclData(S, {"c", "v"})
     [] op = "drift" -> DeclData(S, {"c", "f", "v"})
-    [] op = "migrate" -> [t \in Targets |-> DeclMigrateSrc(S, t)]
-    [] op = "migrate_ball" -> [t \in Targets |-> DeclMigrateSrc(S, t)]
+    [] op \in {"migrate", "migrate_ball"} -> [t \in Targets |-> DeclMigrateSrc(S, t)]
     [] op = "reduce" -> DeclReduceRows(S)
+    [] op = "simtub_pt" -> <<DeclData(S, KNeeds), [t \in Targets |-> [w \in Vars |-> 0]]>>   \* no target coincides with a datum
 
+HangMark == <<<<0, 0>>>>
 CodeOf(op, S) ==
-  CASE op \in {"krig_u", "xvalid_u"} -> FlagDefine(S, NbUnique(S))
-    [] op = "simtub" -> IF SimExtentUndefined(S) THEN <<<<0, 0>>>> ELSE FlagDefine(S, NbUnique(S))
+  CASE op = "krig_u" -> FlagDefine(S, NbUnique(S))
+    [] op = "xvalid_u" -> IF NVar = 1 /\ XvAddressed(S) # XvCompressed(S, NbUnique(S)) THEN BadMark
+                          ELSE FlagDefine(S, NbUnique(S))
+    [] op = "simtub" -> IF SimExtentUndefined(S) THEN HangMark ELSE FlagDefine(S, NbUnique(S))
     [] op \in {"krig_m", "xvalid_m"} -> [t \in Targets |-> FlagDefine(S, NbMoving(S, t))]
     [] op = "krig_mb" -> [t \in Targets |-> FlagDefine(S, NbMovingBall(S, t))]
     [] op = "neigh_u" -> NbUnique(S)
@@ -229,13 +277,45 @@ CodeOf(op, S) ==
     [] op = "migrate" -> [t \in Targets |-> MigrateSrc(S, t)]
     [] op = "migrate_ball" -> [t \in Targets |-> MigrateBallSrc(S, t)]
     [] op = "reduce" -> CreateReduceRows(S)
+    [] op = "simtub_pt" -> <<IF SimExtentUndefined(S) THEN HangMark ELSE FlagDefine(S, NbUnique(S)),
+                             [t \in Targets |-> SimPointCopy(S, t)]>>
 
-\* the neighbourhood lists of an operation that only selects samples are compared as such; for the
-\* kriging-like operations a sample of the neighbourhood that contributes no datum is immaterial
-Agrees(op, S) == CodeOf(op, S) = DeclOf(op, S)
+\* positions -> identities (this is Expand: a result on Reduce(S) re-indexed on S)
+PairsToId(S, q) == [k \in DOMAIN q |-> IF q[k][1] = 0 THEN q[k] ELSE <<S[q[k][1]].id, q[k][2]>>]
+IdxToId(S, q)   == [k \in DOMAIN q |-> S[q[k]].id]
+ToId(op, S, x) ==
+  CASE KindOf(op) = "data"  -> PairsToId(S, x)
+    [] KindOf(op) = "tdata" -> [t \in Targets |-> PairsToId(S, x[t])]
+    [] KindOf(op) = "idx"   -> IdxToId(S, x)
+    [] KindOf(op) = "tidx"  -> [t \in Targets |-> IdxToId(S, x[t])]
+    [] KindOf(op) = "tsrc"  -> [t \in Targets |-> IF x[t] = 0 THEN 0 ELSE S[x[t]].id]
+    [] KindOf(op) = "count" -> x
+    [] KindOf(op) = "datasrc" -> <<PairsToId(S, x[1]),
+                                   [t \in Targets |-> [w \in Vars |-> IF x[2][t][w] = 0 THEN 0 ELSE S[x[2][t][w]].id]]>>
+
+Spec_(op, S)      == ToId(op, S, DeclOf(op, S))                       \* what C05 promises
+OnMasked(op, S)   == ToId(op, S, CodeOf(op, S))                       \* what the code does on the masked Db
+OnReduced(op, S)  == LET R == Reduce(S, NeedsOf(op)) IN ToId(op, R, CodeOf(op, R))   \* ... on the reduced Db
+Agrees(op, S)     == OnMasked(op, S) = Spec_(op, S) /\ OnReduced(op, S) = Spec_(op, S)
+\* Reduce itself is sound: on a reduced Db the declared data are those declared on the masked one
+ReduceSound(op, S) == LET R == Reduce(S, NeedsOf(op)) IN ToId(op, R, DeclOf(op, R)) = Spec_(op, S)
 
 -----------------------------------------------------------------------------
-(* Features of a pattern (used to class the cases and to state the deviations) *)
+(* Masked TARGET sites: an operation writing on a target Db with a selection  *)
+(* computes the active sites exactly as on the Db reduced to them (TKeep =     *)
+(* Expand for the targets), leaves every pre-existing cell untouched, and a    *)
+(* newly created output variable holds the undefined value at a masked site.   *)
+
+TargetOn(ts) == ts \in {"none", "on"}
+TKeep(T) == IdxN(Len(T), LAMBDA t : TargetOn(T[t]))
+TargetExpect(T) == [t \in DOMAIN T |-> IF TargetOn(T[t]) THEN "value" ELSE "undefined"]
+TargetPatterns == {[t \in Targets |-> "none"]} \cup [Targets -> {"on", "off"}]
+\* Expand is a bijection between the rows of the reduced target Db and the active sites
+ASSUME \A T \in TargetPatterns : /\ \A k \in DOMAIN TKeep(T) : TargetExpect(T)[TKeep(T)[k]] = "value"
+                                  /\ Len(TKeep(T)) = Cardinality({t \in Targets : TargetExpect(T)[t] = "value"})
+
+-----------------------------------------------------------------------------
+(* Features of a pattern (class of the case; used to state the deviations)   *)
 
 Feat(S) ==
   [ sel_off    |-> \E i \in DOMAIN S : S[i].sel = "off",
@@ -245,11 +325,11 @@ Feat(S) ==
     f_na       |-> HasF /\ \E i \in DOMAIN S : SelOn(S[i]) /\ ~S[i].f,
     v_na       |-> HasV /\ \E i \in DOMAIN S : SelOn(S[i]) /\ ~S[i].v,
     odd_sel    |-> OddSel(S),
-    none_usable |-> Keep(S, {"c"}) = <<>>,
-    all_usable |-> \A i \in DOMAIN S : UsableSample(S[i], {"c", "f", "v"}) /\ \A w \in Vars : S[i].z[w] ]
+    none_usable |-> Keep(S, {"c", "f", "v"}) = <<>>,
+    clean      |-> \A i \in DOMAIN S : UsableSample(S[i], {"c", "f", "v"}) /\ \A w \in Vars : S[i].z[w] ]
 
 (***************************************************************************)
-(* Deviations of the transcribed code from Reduce that TLC found (each was   *)
+(* Deviations of the transcribed code from Reduce found by TLC (each was     *)
 (* first reported by TLC as a violation of ModelImplementsReduce, then        *)
 (* entered here with its mechanism).  The conformance runs decide whether     *)
 (* the real library shows it (then it is a recorded finding of known/C05.json *)
@@ -257,17 +337,31 @@ Feat(S) ==
 (***************************************************************************)
 ModelDeviation(op, S) ==
   LET ft == Feat(S) IN
-  \/ ft.odd_sel                     \* the three readings of the selection cell disagree (dedicated category)
-  \/ op \in {"krig_mb", "neigh_mb", "migrate_ball"} /\ (ft.sel_off \/ ft.coord_na \/ ft.zall_na \/ ft.f_na)
-                                    \* ball tree built on all samples, selection test skipped
-  \/ op \in {"cov", "cov_sym", "drift"} /\ (ft.coord_na \/ ft.f_na)
-                                    \* getRanksActive tests neither coordinates nor external drift
-  \/ op = "simtub" /\ ft.coord_na   \* band extents computed through undefined coordinates
-  \/ op \in {"krig_m", "xvalid_m", "neigh_m"} /\ (ft.f_na \/ ft.hetero)
-                                    \* samples dropped later by _flagDefine still fill the NMaxi slots
-  \/ op = "neigh_u" /\ (ft.coord_na \/ ft.f_na)
-                                    \* the unique neighbourhood lists them; _flagDefine drops them later
+  \/ ft.odd_sel
+       \* D0 the three readings of the selection cell disagree on undefined / negative cells (dedicated category)
+  \/ op \in {"krig_mb", "neigh_mb"} /\ (ft.sel_off \/ ft.zall_na)
+       \* D1 ball tree built on all samples (useSel = false) and isActive skipped on that path: masked samples
+       \*    enter the neighbourhood; samples without value take NMaxi slots of the k-nearest query
+  \/ op \in {"krig_mb", "neigh_mb"} /\ (Len(S) < NMaxi \/ Len(Keep(S, NeedsOf(op))) < NMaxi)
+       \* D1b the k-nearest query fails (empty neighbourhood) when the Db holds fewer than NMaxi rows: the reduced
+       \*    Db and the masked Db differ by their number of rows
+  \/ op = "migrate_ball" /\ (ft.sel_off \/ ft.zall_na \/ ft.hetero \/ ft.coord_na)
+       \* D2 same tree in CalcMigrate::_expandPointToPointBall: the value of a masked sample is copied
   \/ op = "migrate" /\ (ft.zall_na \/ ft.hetero)
-                                    \* the nearest active sample wins even when its value is undefined
+       \* D3 the nearest active sample wins even when its value is undefined (point -> grid skips those)
+  \/ op \in {"cov", "cov_sym", "drift"} /\ ft.coord_na
+       \* D4 getRanksActive tests selection, value and Verr, not the coordinates: rows computed from 1.234e30
+  \/ op = "drift" /\ ft.f_na
+       \* D5 ... nor the external drift: the drift matrix holds 1.234e30
+  \/ op = "simtub" /\ ft.coord_na
+       \* D6 band extents (_minmax) computed through the undefined coordinates of active samples
+  \/ op \in {"krig_m", "krig_mb", "xvalid_m"} /\ ft.f_na
+       \* D7 samples that _flagDefine drops later (undefined external drift) still fill the NMaxi slots
+  \/ op = "xvalid_u" /\ (ft.coord_na \/ ft.f_na)
+       \* D9 unique-neighbourhood cross-validation addresses the inverse matrix by the rank among active isotopic
+       \*    samples although _flagDefine also removed the samples without coordinates / external drift
+  \/ op = "simtub_pt"
+       \* D8 point targets: target t is overwritten with the value of data ROW t (index of the output Db used
+       \*    in the input Db), so the result depends on the row numbers, which masked samples shift
 
 =============================================================================
